@@ -120,6 +120,20 @@ def check(ctx):
     cell = tab.cells['SET']
     sort_flag = any(isinstance(n, ast.Call) and any(k.arg == 'sort_by_tag' and isinstance(k.value, ast.Constant) and k.value.value is True for k in n.keywords)
                     for st in cell.body for n in ast.walk(st))
+    if not sort_flag:
+        # a flag computed from the kind being compiled (`sort_by_tag=(type_name == 'SET')`): evaluated for the kind of this cell
+        from .. import evalexpr as _ev1
+        for st in cell.body:
+            for n in ast.walk(st):
+                if isinstance(n, ast.Call):
+                    for k in n.keywords:
+                        if k.arg == 'sort_by_tag' and not isinstance(k.value, ast.Constant):
+                            env1 = {x_.id: 'SET' for x_ in ast.walk(k.value) if isinstance(x_, ast.Name)}
+                            try:
+                                if _ev1.ev(k.value, env1) is True:
+                                    sort_flag = True
+                            except (_ev1.Unsupported, _ev1.PyRaise, KeyError, TypeError):
+                                pass
     enc_sort = False
     if cell.cls is not None:
         for f in encode_reach(cg, cell.cls):
